@@ -187,6 +187,9 @@ def r3_accept_table(ck, F):
         a = r.get(ver, {})
         seq = [tuple(x) for x in a.get("seq", []) if tuple(x) != ("seek",)]
         ck.ob(R, f"full-record/{ver}", tup(a.get("seek")) == ("End", -(size + 4)) and sum(x[0] for x in seq) == size, f"{ver}: record of {sum(x[0] for x in seq)} bytes read at {a.get('seek')} — succeeds only if the full {size + 4}-byte trailer is present", b)
+    for ver in ("FormatV1", "FormatV2"):
+        fl = r.get(ver, {}).get("fields", {})
+        ck.ob(R, f"codec-validated-by-from_u8/{ver}", tup(fl.get("compression_type", ())) == ("read", 1, ("from_u8",)), f"{ver}: the codec is exactly the Some payload of from_u8(<2nd byte group read>) — an id from_u8 does not know cannot be accepted ({fl.get('compression_type')})", b)
     t = fmt.from_u8_table(F)
     ok_ids = sorted(k for k, v in t.items() if v is not None)
     ck.ob(R, "codec-ids-accepted", ok_ids == [0, 1, 2, 3, 4, 5], f"from_u8 accepts exactly {ok_ids}", F.body(A("from_u8")))
